@@ -44,3 +44,26 @@ Print Assumptions C15_result_types_partial.
 Theorem C15_result_types_refuted : exists q D c z, run_evaluate D false q c = Val (VInt z).
 Proof. exact result_types_refuted. Qed.
 Print Assumptions C15_result_types_refuted.
+
+(* ------------------------------------------------------------------ *)
+(* FOR EVERY TEXT that compiles, every document and every start node: Select and Evaluate yield a
+   value or one of the documented complaints, never a runtime-error outcome; the same for
+   MustCompile of ANY text. *)
+From XP Require Import Build.
+From XP.Proofs Require Import EndToEndTotal.
+
+Theorem C15_text_never_a_runtime_error : forall re_ok rm rn rr hcode text ns q,
+  compile re_ok text ns = Ok q ->
+  forall D has_ns c,
+    value_or_documented (select rm rn rr hcode D has_ns q c) /\
+    value_or_documented (evaluate rm rn rr hcode D has_ns q c) /\
+    (forall k, select rm rn rr hcode D has_ns q c <> Crash k) /\
+    (forall k, evaluate rm rn rr hcode D has_ns q c <> Crash k).
+Proof. exact C15_text_no_runtime_error. Qed.
+Print Assumptions C15_text_never_a_runtime_error.
+
+Theorem C15_text_must_compile_never_a_runtime_error : forall re_ok rm rn rr hcode text D has_ns c,
+  value_or_documented (select rm rn rr hcode D has_ns (must_compile re_ok text) c) /\
+  value_or_documented (evaluate rm rn rr hcode D has_ns (must_compile re_ok text) c).
+Proof. exact C15_text_must_compile_no_runtime_error. Qed.
+Print Assumptions C15_text_must_compile_never_a_runtime_error.
